@@ -5,7 +5,8 @@ From AV Require Import Base.Bytes Base.Outcome Hash.HashModel Spec.SpecOps Spec.
   Tree.CompatHist1 Tree.CompatHistReal.
 From AV Require Import Hash.HashRealElement Hash.HashRealAttr Hash.HashRealEnum.
 From AV Require Import Tree.NoPanic Tree.NoPanicProofsBase Tree.NoPanicProofsCopy2 Tree.NoPanicFloat Tree.NoPanicProofsHist Tree.NoPanicReal
-  Tree.NoPanicProofsHistReal Tree.NoPanicProofsOp2 Tree.NoPanicProofsFiles Tree.NoPanicProofsSerFile Tree.NoPanicProofsOp2Hist.
+  Tree.NoPanicProofsHistReal Tree.NoPanicProofsOp2 Tree.NoPanicProofsFiles Tree.NoPanicProofsSerFile Tree.NoPanicProofsOp2Hist
+  Tree.Copy Tree.NoPanicProofsDup Tree.NoPanicProofsDupHist.
 Open Scope list_scope.
 Open Scope N_scope.
 
@@ -46,6 +47,21 @@ Proof.
   destruct (no_panic_step2 RT tab_element tab_attr tab_enum check_fn float_parse fmt LATEST name_index name_definition_ref
               attr_schema_location root_attrs tables_ok12_real CHECK en_ok_real short_ok_real EnumsOK_real AttrsOK_real
               MaskOK_real o w COV WFo I) as (x & w1 & R).
+  rewrite R. split; [intros s|]; discriminate.
+Qed.
+
+(* AutosarModel::duplicate as the call after any history of covered steps *)
+Theorem duplicate_after_history_real l w m :
+  run_ops2F' l empty_world = Val w -> wf_ops2' l empty_world ->
+  m < N.of_nat (List.length (w_models w)) ->
+  dup_sized RT LATEST root_attrs m w ->
+  (forall s, m_duplicate RT tab_element tab_enum check_fn LATEST root_attrs m w <> Pan s) /\
+  m_duplicate RT tab_element tab_enum check_fn LATEST root_attrs m w <> Fuel.
+Proof.
+  intros E WF Lm HS.
+  destruct (duplicate_after_history RT tab_element tab_attr tab_enum check_fn float_parse fmt LATEST name_index name_definition_ref
+              attr_schema_location root_attrs tables_ok12_real CHECK en_ok_real short_ok_real NamesOK_real EnumsOK_real AttrsOK_real
+              RootOK (tkr_real check_fn) root_plain_real MaskOK_real l w m E WF Lm HS) as (r & w1 & R).
   rewrite R. split; [intros s|]; discriminate.
 Qed.
 
